@@ -1,6 +1,7 @@
 (* C07 — an HTTPS request is sent only over a connection verified as configured.
-   Statements only: for every combination of cert_reqs, assert_hostname, assert_fingerprint, ssl_context and every
-   peer (chain valid or not, names matching or not). *)
+   Statements only: for every combination of cert_reqs, assert_hostname, assert_fingerprint, ssl_context, the way the CA is
+   given, the backend (ssl or pyOpenSSL), the route (direct, CONNECT through an http proxy, CONNECT through an https proxy
+   with its own settings) and every peer (issuer, names matching or not). *)
 From Coq Require Import List Bool.
 From V Require Import model.TlsVerify gen.Gen_Verify.
 Import ListNotations.
@@ -10,12 +11,13 @@ Theorem source_facts :
   Gen_Verify.verify_mode_follows_cert_reqs = Some true /\ Gen_Verify.own_check_condition = Some true /\
   Gen_Verify.post_handshake_checks = Some true /\ Gen_Verify.default_context_rule = Some true /\
   Gen_Verify.no_cert_reqs_means_required = Some true /\ Gen_Verify.warning_rule = Some true /\
-  Gen_Verify.system_store_only_without_ca = Some true.
+  Gen_Verify.system_store_only_without_ca = Some true /\ Gen_Verify.proxy_handshake_before_connect = Some true /\
+  Gen_Verify.proxy_tls_settings = Some true /\ Gen_Verify.pyopenssl_context_shape = Some true.
 Proof. repeat split; reflexivity. Qed.
 Print Assumptions source_facts.
 
-(* what the settings demand of the peer *)
-Definition demanded (s : settings) (p : peer) : Prop :=
+(* what the settings demand of a peer *)
+Definition demanded (b : backend) (s : settings) (p : peer) : Prop :=
   match s_fingerprint s with
   | FPRight => True                                  (* the pinned certificate is the one presented *)
   | FPWrong | FPBadLength => False
@@ -23,7 +25,7 @@ Definition demanded (s : settings) (p : peer) : Prop :=
       match resolve (s_cert_reqs s) with
       | VNone => True                                (* nothing is demanded (and the connection is not called verified) *)
       | _ =>
-          p_chain_ok s p = true /\
+          p_chain_ok b s p = true /\
           match s_assert_hostname s with
           | AHFalse => True
           | AHName => p_assert_name_ok p = true
@@ -33,67 +35,150 @@ Definition demanded (s : settings) (p : peer) : Prop :=
       end
   end.
 
-(* not one byte of the request is written unless the peer passed the checks the settings demand *)
-Theorem sent_only_if_verified_as_configured : forall s p v w, connect s p = Sent v w -> demanded s p.
+Ltac lattice s p :=
+  destruct s as [cr ah fp cx tr]; destruct p as [iss sni asn];
+  cbn [s_cert_reqs s_assert_hostname s_fingerprint s_context s_trust p_issuer p_sni_name_ok p_assert_name_ok].
+
+(* one handshake passes only if the peer passed what its settings demand *)
+Lemma wrap_demanded : forall b t s p v, wrap b t s p = WOk v -> demanded b s p.
 Proof.
-  intros [cr ah fp cx tr] [iss sni asn] v w; unfold connect, demanded, p_chain_ok, anchored;
+  intros b t s p v. lattice s p. unfold wrap, demanded, p_chain_ok, anchored;
     cbn [s_cert_reqs s_assert_hostname s_fingerprint s_context s_trust p_issuer p_sni_name_ok p_assert_name_ok].
-  destruct (negb (no_ca tr)) eqn:Ha, (no_ca tr && own_context cx) eqn:Hb; destruct cr, ah, fp, cx, iss, sni, asn; cbn; intros H; try discriminate; auto.
+  destruct b, t, cr, ah, fp, cx, tr, iss, sni, asn; cbn; intros H; try discriminate; auto.
+Qed.
+
+Lemma wrap_verified : forall b t s p v, wrap b t s p = WOk v ->
+  v = (is_required (resolve (s_cert_reqs s)) || negb (match s_fingerprint s with FPUnset => true | _ => false end)).
+Proof.
+  intros b t s p v. lattice s p. unfold wrap, p_chain_ok, anchored;
+    cbn [s_cert_reqs s_assert_hostname s_fingerprint s_context s_trust p_issuer p_sni_name_ok p_assert_name_ok].
+  destruct b, t, cr, ah, fp, cx, tr, iss, sni, asn; cbn; intros H; try discriminate; inversion H; reflexivity.
+Qed.
+
+(* not one byte of the request is written unless the server passed the checks the settings demand - and, through an
+   https proxy, the proxy passed its own *)
+Theorem sent_only_if_verified_as_configured : forall b s p r v w, connect b s p r = Sent v w ->
+  demanded b s p /\ match r with TunnelHttps x xp => demanded b (proxy_tls s x) xp | _ => True end.
+Proof.
+  intros b s p r v w H. destruct r as [| |x xp]; unfold connect in H.
+  - destruct (wrap b false s p) eqn:W; try discriminate. split; [exact (wrap_demanded _ _ _ _ _ W)|exact I].
+  - destruct (wrap b false s p) eqn:W; try discriminate. split; [exact (wrap_demanded _ _ _ _ _ W)|exact I].
+  - destruct (wrap b false (proxy_tls s x) xp) eqn:X; try discriminate. destruct (wrap b true s p) eqn:W; try discriminate.
+    split; [exact (wrap_demanded _ _ _ _ _ W)|exact (wrap_demanded _ _ _ _ _ X)].
 Qed.
 Print Assumptions sent_only_if_verified_as_configured.
 
-(* by default (no cert_reqs, no assert_hostname, no fingerprint, no context) that is: a valid chain and a matching name *)
-Theorem default_is_chain_and_name : forall p v w,
-  forall tr, let s := mkSettings CRDefault AHUnset FPUnset CtxNone tr in
-  connect s p = Sent v w -> p_chain_ok s p = true /\ p_sni_name_ok p = true.
-Proof. intros [iss sni asn] v w tr; unfold connect, p_chain_ok, anchored; cbn. destruct tr, iss, sni, asn; cbn; intros H; try discriminate; auto. Qed.
+(* nor is the CONNECT written to an https proxy that did not pass its checks *)
+Theorem tunnel_only_through_a_verified_proxy : forall b s p x xp,
+  match connect b s p (TunnelHttps x xp) with
+  | Sent _ _ | Refused true | Misconfigured true => demanded b (proxy_tls s x) xp
+  | _ => True
+  end.
+Proof.
+  intros b s p x xp. unfold connect. destruct (wrap b false (proxy_tls s x) xp) eqn:X; try exact I.
+  pose proof (wrap_demanded _ _ _ _ _ X) as D. destruct (wrap b true s p); exact D.
+Qed.
+Print Assumptions tunnel_only_through_a_verified_proxy.
+
+(* by default (no cert_reqs, no assert_hostname, no fingerprint, no context; stdlib backend) that is: a valid chain and a
+   name the TLS library matched; with pyOpenSSL: a valid chain and a name urllib3 matched *)
+Theorem default_is_chain_and_name : forall b p r v w tr, let s := mkSettings CRDefault AHUnset FPUnset CtxNone tr in
+  connect b s p r = Sent v w ->
+  p_chain_ok b s p = true /\ match b with BStd => p_sni_name_ok p = true | BPyOpenSSL => p_assert_name_ok p = true end.
+Proof.
+  intros b p r v w tr s H.
+  assert (W : exists t v', wrap b t s p = WOk v').
+  { destruct r as [| |x xp]; unfold connect in H.
+    - destruct (wrap b false s p) eqn:W; try discriminate. eauto.
+    - destruct (wrap b false s p) eqn:W; try discriminate. eauto.
+    - destruct (wrap b false (proxy_tls s x) xp); try discriminate. destruct (wrap b true s p) eqn:W; try discriminate. eauto. }
+  destruct W as (t & v' & W). subst s. destruct p as [iss sni asn]. revert W. unfold wrap, p_chain_ok, anchored; cbn.
+  destruct b, t, tr, iss, sni, asn; cbn; intros W; try discriminate; auto.
+Qed.
 Print Assumptions default_is_chain_and_name.
 
 (* a connection made without certificate validation - cert_reqs other than REQUIRED and no pinned fingerprint - is never
-   reported as verified and always warns; one made with REQUIRED, or pinned, is reported verified *)
-Theorem unvalidated_is_never_verified : forall s p v w, connect s p = Sent v w ->
-  v = (is_required (resolve (s_cert_reqs s)) || negb (match s_fingerprint s with FPUnset => true | _ => false end)) /\ w = negb v.
+   reported as verified; one made with REQUIRED, or pinned, is *)
+Theorem unvalidated_is_never_verified : forall b s p r v w, connect b s p r = Sent v w ->
+  v = (is_required (resolve (s_cert_reqs s)) || negb (match s_fingerprint s with FPUnset => true | _ => false end)).
 Proof.
-  intros [cr ah fp cx tr] [iss sni asn] v w; unfold connect, p_chain_ok, anchored;
-    cbn [s_cert_reqs s_assert_hostname s_fingerprint s_context s_trust p_issuer p_sni_name_ok p_assert_name_ok].
-  destruct (negb (no_ca tr)) eqn:Ha, (no_ca tr && own_context cx) eqn:Hb; destruct cr, ah, fp, cx, iss, sni, asn; cbn; intros H; try discriminate; inversion H; subst; split; reflexivity.
+  intros b s p r v w H. destruct r as [| |x xp]; unfold connect in H.
+  - destruct (wrap b false s p) eqn:W; try discriminate. inversion H; subst. exact (wrap_verified _ _ _ _ _ W).
+  - destruct (wrap b false s p) eqn:W; try discriminate. inversion H; subst. exact (wrap_verified _ _ _ _ _ W).
+  - destruct (wrap b false (proxy_tls s x) xp); try discriminate. destruct (wrap b true s p) eqn:W; try discriminate.
+    inversion H; subst. exact (wrap_verified _ _ _ _ _ W).
 Qed.
 Print Assumptions unvalidated_is_never_verified.
 
+(* ... and it warns: always on a direct connection and through an http proxy; through an https proxy as long as the
+   proxy's own certificate is not pinned *)
+Theorem unvalidated_warns : forall b s p r v w, connect b s p r = Sent v w ->
+  match r with TunnelHttps x _ => x_fingerprint x = FPUnset | _ => True end ->
+  w = negb v.
+Proof.
+  intros b s p r v w H Hx. destruct r as [| |x xp]; unfold connect in H.
+  - destruct (wrap b false s p) eqn:W; try discriminate. inversion H; reflexivity.
+  - destruct (wrap b false s p) eqn:W; try discriminate. inversion H; subst. destruct v; reflexivity.
+  - destruct (wrap b false (proxy_tls s x) xp) as [xv| |] eqn:X; try discriminate. destruct (wrap b true s p) as [ov| |] eqn:W; try discriminate.
+    inversion H; subst. pose proof (wrap_verified _ _ _ _ _ W) as Hv. pose proof (wrap_verified _ _ _ _ _ X) as Hxv.
+    unfold proxy_tls in Hxv; cbn [s_cert_reqs s_fingerprint] in Hxv. rewrite Hx in Hxv. subst v xv.
+    destruct (is_required (resolve (s_cert_reqs s))), (s_fingerprint s); reflexivity.
+Qed.
+Print Assumptions unvalidated_warns.
+
+(* the full statement - an unvalidated connection always warns - is false of the faithful model: with the proxy's
+   certificate pinned, proxy_is_verified hides the unverified origin from _validate_conn (known finding C07-F1) *)
+Theorem unvalidated_always_warns_refuted : exists b s p r, connect b s p r = Sent false false.
+Proof.
+  exists BStd, (mkSettings CRNone AHUnset FPUnset CtxNone TFile), (mkPeer IUnknown false false),
+    (TunnelHttps (mkProxy AHUnset FPRight CtxNone) (mkPeer IUnknown false false)). reflexivity.
+Qed.
+Print Assumptions unvalidated_always_warns_refuted.
+
 (* a configured CA (file, directory or in-memory data) is the only anchor: while certificates are validated and no
    fingerprint is pinned, nothing is sent to a server whose certificate was issued by anyone else - the system store
-   included; and the system store counts only when no CA is configured and the context is urllib3's own *)
-Theorem configured_ca_is_the_only_anchor : forall s p v w,
-  connect s p = Sent v w -> s_fingerprint s = FPUnset -> resolve (s_cert_reqs s) <> VNone ->
+   included; and the system store counts only when no CA is configured, the context is urllib3's own and the backend
+   the stdlib's *)
+Theorem configured_ca_is_the_only_anchor : forall b s p r v w,
+  connect b s p r = Sent v w -> s_fingerprint s = FPUnset -> resolve (s_cert_reqs s) <> VNone ->
   match s_trust s with
-  | TNothing => p_issuer p = ISystem /\ s_context s = CtxNone
+  | TNothing => p_issuer p = ISystem /\ s_context s = CtxNone /\ b = BStd
   | _ => p_issuer p = IConfigured
   end.
 Proof.
-  intros s p v w H Hfp Hv. pose proof (sent_only_if_verified_as_configured s p v w H) as D. unfold demanded in D. rewrite Hfp in D.
+  intros b s p r v w H Hfp Hv. destruct (sent_only_if_verified_as_configured b s p r v w H) as [D _]. unfold demanded in D. rewrite Hfp in D.
   destruct (resolve (s_cert_reqs s)) eqn:Hr; try (exfalso; apply Hv; reflexivity);
     destruct D as [Hc _]; unfold p_chain_ok, anchored in Hc;
-    destruct (s_trust s), (p_issuer p), (s_context s); cbn in Hc; try discriminate; auto.
+    destruct (s_trust s), (p_issuer p), (s_context s), b; cbn in Hc; try discriminate; auto.
 Qed.
 Print Assumptions configured_ca_is_the_only_anchor.
 
-(* when the peer does not pass, the outcome is a refusal (SSLError) - or the ssl module's own ValueError for CERT_NONE on
-   a context that checks host names - and nothing is written: the only constructor that writes is Sent *)
-Theorem failing_peer_is_refused : forall s p, ~ demanded s p -> connect s p = Refused \/ connect s p = Misconfigured.
+(* when the server does not pass, the outcome is a refusal (SSLError) or a ValueError and the request is not written: the
+   only constructor that writes it is Sent *)
+Theorem failing_peer_is_refused : forall b s p r, ~ demanded b s p ->
+  exists t, connect b s p r = Refused t \/ connect b s p r = Misconfigured t.
 Proof.
-  intros s p Hn. destruct (connect s p) as [v w| |] eqn:H; [|left; reflexivity|right; reflexivity].
-  exfalso. apply Hn. exact (sent_only_if_verified_as_configured s p v w H).
+  intros b s p r Hn. destruct (connect b s p r) as [v w|t|t] eqn:H; [|exists t; left; reflexivity|exists t; right; reflexivity].
+  exfalso. apply Hn. exact (proj1 (sent_only_if_verified_as_configured b s p r v w H)).
 Qed.
 Print Assumptions failing_peer_is_refused.
 
-(* non-vacuity: the lattice really contains accepted, refused and misconfigured points *)
+(* non-vacuity: the lattice really contains accepted, refused and misconfigured points on every route *)
 Example points :
-  connect (mkSettings CRDefault AHUnset FPUnset CtxNone TFile) (mkPeer IConfigured true true) = Sent true false /\
-  connect (mkSettings CRDefault AHUnset FPUnset CtxNone TNothing) (mkPeer ISystem true true) = Sent true false /\
-  connect (mkSettings CRDefault AHUnset FPUnset CtxNone TData) (mkPeer ISystem true true) = Refused /\
-  connect (mkSettings CRNone AHUnset FPUnset CtxNone TFile) (mkPeer IUnknown false false) = Sent false true /\
-  connect (mkSettings CRNone AHUnset FPRight CtxNone TFile) (mkPeer IUnknown false false) = Sent true false /\
-  connect (mkSettings CRDefault AHUnset FPUnset CtxNone TFile) (mkPeer IConfigured false true) = Refused /\
-  connect (mkSettings CROptional AHFalse FPUnset CtxNotChecking TFile) (mkPeer IUnknown true true) = Refused /\
-  connect (mkSettings CRNone AHUnset FPUnset CtxChecking TFile) (mkPeer IConfigured true true) = Misconfigured.
+  connect BStd (mkSettings CRDefault AHUnset FPUnset CtxNone TFile) (mkPeer IConfigured true true) Direct = Sent true false /\
+  connect BStd (mkSettings CRDefault AHUnset FPUnset CtxNone TNothing) (mkPeer ISystem true true) Direct = Sent true false /\
+  connect BPyOpenSSL (mkSettings CRDefault AHUnset FPUnset CtxNone TNothing) (mkPeer ISystem true true) Direct = Refused false /\
+  connect BPyOpenSSL (mkSettings CRDefault AHUnset FPUnset CtxNone TFile) (mkPeer IConfigured false true) Direct = Sent true false /\
+  connect BStd (mkSettings CRDefault AHUnset FPUnset CtxNone TData) (mkPeer ISystem true true) Direct = Refused false /\
+  connect BStd (mkSettings CRNone AHUnset FPUnset CtxNone TFile) (mkPeer IUnknown false false) TunnelHttp = Sent false true /\
+  connect BStd (mkSettings CRNone AHUnset FPRight CtxNone TFile) (mkPeer IUnknown false false) Direct = Sent true false /\
+  connect BStd (mkSettings CRDefault AHUnset FPUnset CtxNone TFile) (mkPeer IConfigured false true) TunnelHttp = Refused true /\
+  connect BStd (mkSettings CROptional AHFalse FPUnset CtxNotChecking TFile) (mkPeer IUnknown true true) Direct = Refused false /\
+  connect BStd (mkSettings CRNone AHUnset FPUnset CtxChecking TFile) (mkPeer IConfigured true true) Direct = Misconfigured false /\
+  connect BStd (mkSettings CRDefault AHUnset FPUnset CtxNone TFile) (mkPeer IConfigured true true)
+    (TunnelHttps (mkProxy AHUnset FPUnset CtxNone) (mkPeer IConfigured true true)) = Sent true false /\
+  connect BStd (mkSettings CRDefault AHUnset FPUnset CtxNone TFile) (mkPeer IConfigured true true)
+    (TunnelHttps (mkProxy AHUnset FPUnset CtxNone) (mkPeer IUnknown true true)) = Refused false /\
+  connect BPyOpenSSL (mkSettings CRDefault AHUnset FPUnset CtxNone TFile) (mkPeer IConfigured true true)
+    (TunnelHttps (mkProxy AHUnset FPUnset CtxChecking) (mkPeer IConfigured true true)) = Misconfigured true.
 Proof. repeat split; reflexivity. Qed.
